@@ -193,6 +193,7 @@ func c11A4Builder(r *core.R, it *c11Interp, b *c11Builder) {
 	}
 	var sortBad, idxBad, revBad []string
 	nIter, nRev := 0, 0
+	nSkip := 0
 	pos := b.pos
 	for _, p := range paths {
 		st := p.st
@@ -211,6 +212,13 @@ func c11A4Builder(r *core.R, it *c11Interp, b *c11Builder) {
 					if rv, _, ok := ev.call.isMethodCall(namedPath(b.srcT), "SortByIDVersion"); ok && rv.key() == X.key() {
 						sorted = true
 					}
+				}
+			}
+			if !sorted {
+				// a fast path that skips the sort after checking that the history already is strictly ascending
+				if es := c11ElemStruct(b.srcT); es != nil && c11AscendingChecked(paths, st, X, loopAt, es) {
+					sorted = true
+					nSkip++
 				}
 			}
 			if !sorted {
@@ -321,7 +329,7 @@ func c11A4Builder(r *core.R, it *c11Interp, b *c11Builder) {
 	case len(sortBad) > 0:
 		r.Bad(cs, pos, "%s; %s", strings.Join(c11Uniq(sortBad), "; "), consequence)
 	default:
-		r.OK(cs, pos, "on every path, %s.SortByIDVersion() on the history the list was sized from precedes the loop that assigns VersionIndex (in %s)", tn, fi.Name())
+		r.OK(cs, pos, "on every path, %s.SortByIDVersion() on the history the list was sized from precedes the loop that assigns VersionIndex — or (%d paths) a completed check that every adjacent pair is strictly ascending by (ID, Version) (in %s)", tn, nSkip, fi.Name())
 	}
 	switch {
 	case nIter == 0:
@@ -373,4 +381,18 @@ func c11IntPositive(st *c11St, i *c11V, upto int) c11Tri {
 		return t
 	}
 	return c11TriNot(st.truthAt(c11Bin(token.LSS, i, c11Int(1)), upto, nil))
+}
+
+// c11ElemStruct: the struct behind the elements of an osm history type (osm.Nodes -> osm.Node).
+func c11ElemStruct(nt *types.Named) *types.Struct {
+	sl, ok := nt.Underlying().(*types.Slice)
+	if !ok {
+		return nil
+	}
+	t := sl.Elem()
+	if p, ok := t.(*types.Pointer); ok {
+		t = p.Elem()
+	}
+	st, _ := t.Underlying().(*types.Struct)
+	return st
 }
